@@ -299,6 +299,54 @@ def r2b_template_scan(ctx, prog):
 BLOCK = {'CKM_AES_CBC': 16, 'CKM_AES_CBC_PAD': 16, 'CKM_DES3_CBC': 8, 'CKM_DES3_CBC_PAD': 8}
 
 
+def r5b_check_value_source(ctx, prog):
+    """The check value of a derived key is computed over the very bytes that become its CKA_VALUE (after truncation and the DES parity fix): the byte string handed to the check-value
+    helper is the plaintext that is encrypted into, or assigned to, the value stored with setAttribute(CKA_VALUE, .)."""
+    r = ctx.rule('C13.R5b', 'the check value of a derived key is computed over the bytes that are stored as its CKA_VALUE', floor=4, engine='E5 value following (plaintext -> stored value)')
+    cka_value = macro(prog, 'CKA_VALUE')
+    # the check-value helper, by what it does: a free function that loads one of its parameters into a key object (setKeyBits) and asks that object for its check value
+    helpers = {}
+    for g in prog.functions.values():
+        if g.get('class') or g['body'] is None or not list(calls(g['body'], short='getKeyCheckValue')):
+            continue
+        pn = [pp['var']['name'] if pp.get('var') else None for pp in g.get('params', [])]
+        for k2 in calls(g['body'], short='setKeyBits'):
+            if k2.get('args') and k2['args'][0].get('k') == 'Var' and k2['args'][0]['name'] in pn:
+                helpers[g['qname']] = pn.index(k2['args'][0]['name'])
+    for f in sorted(prog.functions.values(), key=lambda f: (f['file'], f['line'])):
+        if f['body'] is None:
+            continue
+        ks = [c for c in calls(f['body']) if c.get('callee') in helpers]
+        if not ks:
+            continue
+        ctx.analysed(f)
+        def unwrap(e):
+            while e is not None and ((e.get('k') == 'Ctor' and len(e.get('args', [])) == 1) or (e.get('k') in ('Cast', 'Paren') and e.get('e') is not None)):
+                e = e['args'][0] if e.get('k') == 'Ctor' else e['e']
+            return e
+        stored = {canon(unwrap(c['args'][1])) for c in calls(f['body'], short='setAttribute') if len(c.get('args', [])) >= 2 and tables.const_eval(c['args'][0]) == cka_value}
+        plain = set()
+        for c in calls(f['body'], short='encrypt'):
+            if len(c.get('args', [])) >= 2 and canon(c['args'][1]) in stored:
+                plain.add(canon(c['args'][0]))
+        for n in walk(f['body']):
+            if n.get('k') == 'Call' and short(n.get('callee') or '') == 'operator=' and n.get('recv') is not None and canon(n['recv']) in stored and n.get('args'):
+                plain.add(canon(n['args'][0]))
+            elif n.get('k') == 'Assign' and canon(n['a']) in stored:
+                plain.add(canon(n['b']))
+        for i, c in enumerate(ks):
+            site = 'check value source@%d' % i
+            ai = helpers[c['callee']]
+            src = canon(c['args'][ai]) if len(c.get('args', [])) > ai else '?'
+            if not stored or not plain:
+                r.undecided(f['qname'], site, 'the value stored as CKA_VALUE could not be followed to its plaintext', file=f['file'], line=c['l'])
+            elif src in plain:
+                r.ok(f['qname'], site, 'computed over %s, the plaintext of the stored value' % src, file=f['file'], line=c['l'])
+            else:
+                r.violation(f['qname'], site, 'the check value is computed over %s, but the key value that is stored is %s: a key shorter than the secret (or parity-adjusted) gets the check value of other bytes' % (src, '/'.join(sorted(plain))),
+                            file=f['file'], line=c['l'])
+
+
 def r6_caller_iv(ctx, prog):
     r = ctx.rule('C13.R6', 'CBC wrapping and unwrapping run under the caller\'s IV: the IV handed to the cipher has the block size and is copied from the mechanism parameter', floor=4, engine='E8 finite-domain')
     for q, init in (('SoftHSM::WrapKeySym', 'encryptInit'), ('SoftHSM::UnwrapKeySym', 'decryptInit')):
@@ -535,6 +583,7 @@ def run(ctx):
     r3_cipher_tables(ctx, po, pb)
     r4_truncation(ctx, po)
     r5_check_values(ctx, po)
+    r5b_check_value_source(ctx, po)
     r6_caller_iv(ctx, po)
     c10.r3_stripped_length(ctx, [('ossl-file', po), ('botan-file', pb)], rule_id='C13.R7')
     c10.r10_secret_measure(ctx, [('ossl-file', po), ('botan-file', pb)], rule_id='C13.R11')
